@@ -267,6 +267,7 @@ def write_replay(pid, kind, payload):
 
 
 VALGRIND = ['valgrind', '--error-exitcode=9', '--exit-on-first-error=yes', '-q']
+VALGRIND_ALL = ['valgrind', '--error-exitcode=9', '--error-limit=no', '-q']   # all reports; only those raised inside /repo/src code count
 
 
 def crash_info(pid, hout, rc):
@@ -277,13 +278,17 @@ def crash_info(pid, hout, rc):
         what = m.group(1)
         fn = re.search(r'#\d+ 0x[0-9a-f]+ in ([\w:~<>]+)[^\n]*?/src/', hout)
     elif vg:
-        what = 'valgrind memcheck: ' + vg.group(1)
         srcs = set(os.path.basename(f) for f in glob.glob(os.path.join(SRC, '*')))
-        fn = None
-        for fm in re.finditer(r'==\d+==\s+(?:at|by) 0x[0-9A-F]+: ([\w:~<>]+)[^\n]*\((\w+\.\w+):\d+\)', hout):
-            if fm.group(2) in srcs:
-                fn = fm
+        what, fn = None, None
+        # report blocks; a block counts when the access itself (its `at` frame, inlined frames included) is in library code
+        for blk in re.split(r'\n==\d+== \n', hout):
+            hm = re.search(r'==\d+== ((?:Conditional jump|Use of uninitialised|Invalid (?:read|write|free)|Syscall param|Mismatched free|Source and destination overlap)[^\n]*)', blk)
+            am = re.search(r'==\d+==\s+at 0x[0-9A-F]+: ([\w:~<>]+)[^\n]*\((\w+\.\w+):\d+\)', blk)
+            if hm and am and am.group(2) in srcs:
+                what, fn = 'valgrind memcheck: ' + hm.group(1), am
                 break
+        if what is None:
+            return None, 'valgrind memcheck: reports outside the library only'
     else:
         what, fn = 'harness exit code %d' % rc, None
     return '%s:crash:%s' % (pid, fn.group(1) if fn else 'unknown'), what
@@ -338,7 +343,7 @@ def shrink_case(pid, ent, seed, tier, budget_s=45.0):
 
 # ------------------------------------------------------------------------------------------------- main
 
-def one_pass(pid, spec, variant, binp, seed, tier, findings, res, replay=None, wrapper=(), extra_env=None):
+def one_pass(pid, spec, variant, binp, seed, tier, findings, res, replay=None, wrapper=(), extra_env=None, crash_only=False):
     """run harness+driver+oracle once; accumulate into res; return (corr_mismatch_info|None, new_oracle_fails)"""
     outdir = os.path.join(BUILD, pid, 'run_%s' % (variant or 'd'))
     rc, hout = run_harness(binp, outdir, seed, tier, replay, timeout=spec.get('timeout', 3600),
@@ -351,14 +356,19 @@ def one_pass(pid, spec, variant, binp, seed, tier, findings, res, replay=None, w
     if rc != 0:
         # sanitizer abort / crash / timeout / memcheck report: an oracle failure for the op being executed (last op line)
         key, what = crash_info(pid, hout, rc)
+        if key is None:   # memcheck reports raised by the harness's own code only: not about the library
+            res['counters']['memcheck_reports_outside_library'] = res['counters'].get('memcheck_reports_outside_library', 0) + 1
+            rc = 0
+    if rc != 0:
         res['crash'] = what
-        ent = {'key': key, 'line': len(ops), 'text': what, 'case': case_of(ops, len(ops) - 1, cs) if ops else [],
+        ent = {'key': key, 'line': len(ops), 'text': what,
+               'case': (ops if crash_only else case_of(ops, len(ops) - 1, cs)) if ops else [],   # memcheck replay: the report may stem from any op
                'log_tail': hout[-3000:], 'variant': variant, '_bin': binp, '_spec': spec, '_wrapper': wrapper, '_env': extra_env}
         if key in findings and findings[key].get('status') == 'open':
             res['known'].setdefault(key, ent)
         else:
             new_fails.append(ent)
-    for l in oracle:
+    for l in ([] if crash_only else oracle):   # a memcheck replay of a prefix judges memory reports only (oracles ran in the full pass)
         parts = l.split(' ', 3)
         if len(parts) < 3 or parts[0] != 'FAIL':
             continue
@@ -565,6 +575,28 @@ def main():
                               extra_env={'N2K_FUZZ_CASES': str(mc.get('cases_thorough' if tier == 'thorough' else 'cases_quick', 40))})
             fails += nf
             ev_extra['memcheck_runs'] = ev_extra.get('memcheck_runs', 0) + 1
+    # generic memcheck pass: replay a prefix (whole cases) of the ops just generated by each default-variant harness under valgrind
+    nrep = spec.get('memcheck_replay', int(os.environ.get('N2K_MEMCHECK_REPLAY', '3000')))
+    if nrep and '' in bins:
+        outdir0 = os.path.join(BUILD, pid, 'run_d')
+        ops0 = read_lines(os.path.join(outdir0, 'ops.txt'))
+        cs0 = spec.get('case_start', ['reset'])
+        if tier == 'thorough':
+            nrep *= 4
+        cut = min(nrep, len(ops0))
+        while cut < len(ops0) and ops0[cut].split(' ')[0] not in cs0 and cut < nrep + 3000:
+            cut += 1
+        if cut:
+            rpath = os.path.join(BUILD, pid, 'memcheck_ops.txt')
+            open(rpath, 'w').write('\n'.join(ops0[:cut]) + '\n')
+            binp, err = build_harness(pid, spec, 'mc')
+            if not binp:
+                problems.append('harness build failed (memcheck): %s' % err[-800:])
+            else:
+                mm, nf = one_pass(pid, dict(spec, no_model=True), 'x_%s_mc' % spec['engine'], binp, seed, tier, findings, res,
+                                  replay=rpath, wrapper=VALGRIND_ALL, crash_only=True, extra_env={'N2K_LAYOUT_REEXEC': '1'})
+                fails += nf
+                ev_extra['memcheck_replayed_ops'] = cut
     # escalate the failing-input search when proof or correspondence broke and no concrete input is known yet
     if (mismatches or problems) and not fails and bins:
         n_extra = 6 if tier == 'quick' else 10
